@@ -170,6 +170,8 @@ type Exec struct {
 	// feasible with outcome v, only the opposite outcome needs a query.
 	model     map[int]uint64
 	modelHits int
+	nano         map[int]nanoInfo // natives_state1_time.go: terms known to be s*1e9+n
+	watch        map[*Value]bool  // natives_state1.go: cells that may only be accessed while the watched mutex is held
 }
 
 func (x *Exec) end(kind endKind, format string, args ...any) {
